@@ -275,6 +275,11 @@ func NewWorld(prog *load.Program, specDir string) (*World, error) {
 			}
 		}
 	}
+	for _, f := range w.Files {
+		for _, pr := range f.Privates {
+			w.checkPrivate(pr)
+		}
+	}
 	w.findImmutableGlobals()
 	w.findMutableFields()
 	w.TypesPkg("io") // build the package index before units run concurrently
@@ -1027,3 +1032,47 @@ func (w *World) declOf(f *ssa.Function) ast.Node { return f.Syntax() }
 func (w *World) fset() *token.FileSet { return w.Prog.Fset }
 
 func exists(p string) bool { _, err := os.Stat(p); return err == nil }
+
+
+// checkPrivate verifies a "private T1, T2 in file.go" declaration: no function declared outside that file takes the
+// address of a field of one of the types (reads and writes both go through a field address in SSA), and no composite value
+// of the types is built elsewhere. A violation is reported as a contract problem of the run.
+func (w *World) checkPrivate(pr *spec.Private) {
+	want := map[string]bool{}
+	for _, t := range pr.Types {
+		want[pr.Pkg+"."+t] = true
+	}
+	named := func(t types.Type) string {
+		t = types.Unalias(t)
+		if p, ok := t.Underlying().(*types.Pointer); ok {
+			t = types.Unalias(p.Elem())
+		}
+		if n, ok := t.(*types.Named); ok && n.Obj().Pkg() != nil {
+			return n.Obj().Pkg().Path() + "." + n.Obj().Name()
+		}
+		return ""
+	}
+	for _, fn := range w.allFuncs {
+		if fn.Blocks == nil {
+			continue
+		}
+		pos := w.Prog.Fset.Position(fn.Pos())
+		if strings.HasSuffix(pos.Filename, "/"+pr.File) || !w.Prog.InModule(pkgPathOf(fn)) {
+			continue
+		}
+		for _, b := range fn.Blocks {
+			for _, ins := range b.Instrs {
+				var t types.Type
+				switch x := ins.(type) {
+				case *ssa.FieldAddr:
+					t = x.X.Type()
+				case *ssa.Field:
+					t = x.X.Type()
+				}
+				if t != nil && want[named(t)] {
+					w.Problems = append(w.Problems, fmt.Sprintf("%s: %s touches a field of %s, which is declared private to %s (%s)", pr.Pos, shortKey(FuncKey(fn)), named(t), pr.File, w.Prog.Fset.Position(ins.Pos())))
+				}
+			}
+		}
+	}
+}
